@@ -18,7 +18,7 @@ def _choices(s):
     for d in s['pdata']:
         at = list(s['attrs'][d])
         for a in at:
-            if (a['k'] == 'num' and f['numeric']) or (a['k'] == 'cat' and f['categorical']):
+            if (a['k'] == 'num' and f['numeric']) or (a['k'] == 'cat' and f['categorical']) or (a['k'] == 'time' and f['datetime']):
                 out.append({'d': str(d), 'n': str(a['n'])})
         for a in at:
             if a['k'] == 'derived' and f['numeric'] and f['derived']:
@@ -44,6 +44,23 @@ def run(ctx):
             if not any(s['act']['op'] == 'SaveRestoreViewer' for s in steps) or True:
                 if (k + ctx.seed) % (12 if quick else 2) == 0:
                     items.append({'part': 1, 'viewer': A.VIEWERS[1 + (k // 12) % 4], 'steps': steps})
+        # two datasets in the viewer at the time it is saved and restored (layers of unlinked datasets are disabled): every such
+        # history on the scatter and the image viewer
+        def two_then_save(steps):
+            shown = set()
+            for st in steps:
+                a = st['act']
+                if a['op'] == 'ViewerAddData':
+                    shown.add(a['d'])
+                elif a['op'] in ('ViewerRemoveData', 'Remove'):
+                    shown.discard(a['d'])
+                elif a['op'] == 'SaveRestoreViewer' and len(shown) >= 2:
+                    return True
+            return False
+        for steps in base1:
+            if two_then_save(steps):
+                for kind in ('scatter', 'image'):
+                    items.append({'part': 1, 'viewer': kind, 'steps': steps})
         # one dataset, one group: every history on each matplotlib viewer
         res, g = tlc.dump_graph(wd, 'MC_Viewer.tla', 'GEN_Viewer1_one.cfg', timeout=3000)
         ctx.add_tlc('E0+E1 generation GEN_Viewer1_one.cfg', res, 'GEN_Viewer1_one.cfg')
